@@ -66,9 +66,9 @@ func TestC09Alias(t *testing.T) {
 	ev.SetRule("rapid: corpus (<=8 docs from a generated history), partitioned into 1-4 shards (empty and skewed shards drawn explicitly), shard engines drawn independently (scorch memory / upsidedown gtreap), alias shape in {flat, alias of aliases, single-member alias chain}; " +
 		"requests = query tree x score-independent total sort (typed field keys, min mode, + _id) x From/Size page x stored fields * x 0-2 facets with size covering all buckets, plus SearchAfter/SearchBefore from every hit of the full ordering; " +
 		"oracle = the same request on one index holding the whole corpus: Total, hit ids in order, stored fields, facets; " +
-		"non-trivial = >=2 non-empty shards each contribute a hit and the page has From>0 or is cut by Size")
+		"non-trivial = the matching documents live in >=2 shards (the merge decides the page) and the page has From>0 or is cut by Size")
 	ev.Assume("scores, MaxScore and score sorts are excluded (idf is per shard, documented); facet sizes cover all buckets")
-	checkPropN(t, "C09", 200, func(t *rapid.T) {
+	checkPropN(t, "C09", 400, func(t *rapid.T) {
 		// corpus: final state of a generated history
 		ndocs := rapid.IntRange(2, 8).Draw(t, "ndocs")
 		var steps []c01Step
@@ -185,7 +185,7 @@ func TestC09Alias(t *testing.T) {
 				cmp(fmt.Sprintf("SearchBefore(%s)", h.ID), func() *bleve.SearchRequest { return pr.build(nil, keys) })
 			}
 			contributing := map[int]bool{}
-			for _, h := range page.Hits {
+			for _, h := range fres.Hits { // the shards whose hits compete for the page
 				contributing[assign[h.ID]] = true
 			}
 			nt := len(contributing) >= 2 && (r.From > 0 || int(page.Total) > r.From+r.Size)
